@@ -23,7 +23,7 @@
 //! `HANG <case>` (exit status 3) if a case does not return within 20 s, and a final `SWEPT <cases> BAD <count>`.
 
 use crate::run::exec;
-use ckc_rs::deck::POKER_DECK;
+use crate::cases::spec_deck;
 use std::panic::{catch_unwind, AssertUnwindSafe};
 use std::sync::atomic::{AtomicU64, Ordering};
 use std::sync::{Arc, Mutex};
@@ -109,7 +109,7 @@ pub fn sweep(args: &[String]) {
     let offset: u64 = arg(args, "--offset").map_or(0, |s| s.parse().unwrap());
     let seed: u64 = arg(args, "--seed").map_or(1, |s| s.parse().unwrap());
     let max_bad: usize = arg(args, "--max-bad").map_or(3, |s| s.parse().unwrap());
-    let mut alpha: Vec<u32> = POKER_DECK.arr().to_vec();
+    let mut alpha: Vec<u32> = spec_deck().to_vec();
     if multi {
         alpha.push(0);
     }
